@@ -981,9 +981,17 @@ func (db *SpecDB) LoadSpecFile(path string, pkgPath string) error {
 			}
 			{
 				var n int
-				fmt.Sscanf(strings.TrimSuffix(strings.TrimSpace(strings.TrimPrefix(rest, "call")), ":"), "%d", &n)
+				spec := strings.TrimSuffix(strings.TrimSpace(strings.TrimPrefix(rest, "call")), ":")
+				if strings.HasSuffix(strings.TrimSpace(spec), "cut") {
+					spec = strings.TrimSpace(strings.TrimSuffix(strings.TrimSpace(spec), "cut"))
+					fmt.Sscanf(spec, "%d", &n)
+					if n > 0 {
+						cur.Cuts[-n] = true
+					}
+				}
+				fmt.Sscanf(spec, "%d", &n)
 				if n <= 0 {
-					return fail(ll, "before call N:")
+					return fail(ll, "before call N [cut]:")
 				}
 				curCall = -n
 				curLoop = nil
